@@ -82,6 +82,9 @@ func wireValue(t jType, decls map[string]jType, rng *rand.Rand, depth int) strin
 		parts := make([]string, n)
 		for i := range parts {
 			parts[i] = wireValue(t.E[0], decls, rng, depth+1)
+			if parts[i] == "" {
+				parts[i] = "null" // an absent optional as an array element
+			}
 		}
 		return "[" + strings.Join(parts, ",") + "]"
 	case "map":
@@ -92,7 +95,11 @@ func wireValue(t jType, decls map[string]jType, rng *rand.Rand, depth int) strin
 		parts := make([]string, n)
 		for i := range parts {
 			k, _ := json.Marshal(fmt.Sprintf("k%d é", i))
-			parts[i] = string(k) + ":" + wireValue(t.E[0], decls, rng, depth+1)
+			v := wireValue(t.E[0], decls, rng, depth+1)
+			if v == "" {
+				v = "null" // an absent optional as a map value
+			}
+			parts[i] = string(k) + ":" + v
 		}
 		return "{" + strings.Join(parts, ",") + "}"
 	case "maybe":
